@@ -900,13 +900,14 @@ struct Child {
     rx: std::sync::mpsc::Receiver<String>,
     /// last lines the child wrote to stderr (the runtime's message when it aborts)
     err_tail: std::sync::Arc<std::sync::Mutex<Vec<String>>>,
+    err_reader: Option<std::thread::JoinHandle<()>>,
 }
 
 fn spawn_child(mem_kb: u64) -> Child {
     let exe = std::env::current_exe().expect("exe");
     let mut p = std::process::Command::new("sh")
         .arg("-c")
-        .arg(format!("ulimit -v {}; exec \"$0\" --child", mem_kb))
+        .arg(format!("ulimit -c 0; ulimit -v {}; exec \"$0\" --child", mem_kb))
         .arg(exe)
         .stdin(std::process::Stdio::piped())
         .stdout(std::process::Stdio::piped())
@@ -917,7 +918,7 @@ fn spawn_child(mem_kb: u64) -> Child {
     let err = p.stderr.take().expect("stderr");
     let err_tail = std::sync::Arc::new(std::sync::Mutex::new(Vec::<String>::new()));
     let tail2 = err_tail.clone();
-    std::thread::spawn(move || {
+    let err_reader = std::thread::spawn(move || {
         let r = std::io::BufReader::new(err);
         for l in r.lines() {
             if let (Ok(l), Ok(mut g)) = (l, tail2.lock()) {
@@ -942,7 +943,7 @@ fn spawn_child(mem_kb: u64) -> Child {
             }
         }
     });
-    Child { proc_: p, rx, err_tail }
+    Child { proc_: p, rx, err_tail, err_reader: Some(err_reader) }
 }
 
 fn term(class: &str, input_bytes: u64, obs: &str, hwm_kb: u64, grew_kb: u64) -> String {
@@ -1011,7 +1012,10 @@ fn parent_main() {
                     let _ = ch.proc_.kill();
                 }
                 let status = ch.proc_.wait().ok();
-                std::thread::sleep(std::time::Duration::from_millis(20));
+                // the child is gone: its stderr reaches EOF, wait until the reader has seen everything
+                if let Some(h) = ch.err_reader.take() {
+                    let _ = h.join();
+                }
                 let tail: Vec<String> = ch.err_tail.lock().map(|g| g.clone()).unwrap_or_default();
                 let tail_txt = tail.join(" | ");
                 let death = if tail_txt.contains("overflowed its stack") {
